@@ -51,6 +51,9 @@ func ForLookup(domain string) (string, error) {
 	// important to apply NFC normalization first.
 	uDomain = norm.NFC.String(uDomain)
 	uDomain = strings.ToLower(uDomain)
+	// Lower-casing can produce a sequence that has a precomposed form even
+	// though the upper-case one does not (J + U+030C -> U+01F0).
+	uDomain = norm.NFC.String(uDomain)
 	uDomain = strings.TrimSuffix(uDomain, ".")
 	return uDomain, nil
 }
